@@ -328,3 +328,179 @@ Example C15_example_load :
   let p := mk_Peer [mk_Connection (es 3%nat) (es 2%nat)] [mk_Connection (es 0%nat) (es 0%nat)] in
   Peer_NumPendingOutbound p = Some 2 /\ Peer_NumConnections p = Some (1, 1) /\ gen_score 0 p = Some 2.
 Proof. vm_compute. repeat split. Qed.
+
+(* ==== the score a list STORES for a peer is the score of the peer's LIVE state ==================
+   Model/C15Score.v: an interleaving model of everything that reads, computes or stores a score.
+   What a calculator reads of a peer is derived from the connections (announced host:port, dialled
+   host:port, our calls in flight); an outbound connection dialled through an address other than
+   the announced one (TCP relay, NAT, localhost vs 127.0.0.1) belongs to TWO peers.  One atomic
+   step per critical section of channel.go / peer.go; operations (connect, accept, close, exchange
+   added / removed, Add, Remove, SetStrategy, Get, GetNew, root-list collection) are threads whose
+   steps interleave in any order ([srun] over [ESpawn] / [EStep]), on the channel's list and any
+   number of isolated sub-channel lists.  [live_score s cl K] = the list's calculator (generated
+   from peer_strategies.go) applied to K's current connections and pending calls.
+   Gen/GenC15Score.v is regenerated from the source on every run; Proofs/C15ScoreGenP.v proves the
+   model's thread programs equal to the compiled statement structure of the Go functions and the
+   atomic steps equal to their lock regions.  Proofs: Proofs/C15ScoreP.v. *)
+From Verif Require Import Base.GoMap Spec.C15ScoreSpec Gen.GenC15Score Gen.GenC15ScoreFn Model.C15Score Proofs.C15ScoreP Proofs.C15ScoreGenP.
+
+(* no interleaving makes the model panic (heap.Fix / Remove on a stale index, a missing map entry) *)
+Theorem C15_score_model_total : forall n es, exists s, srun (s_init n) es = Some s.
+Proof. exact srun_total. Qed.
+Print Assumptions C15_score_model_total.
+
+(* at EVERY moment of every interleaving: the stored score of every entry of every list is the
+   live one, or some running operation still has the re-scoring of exactly this entry ahead of it
+   (an onPeerChange on this list for this peer, or an updatePeer that has not passed the list yet) *)
+Theorem C15_score_fresh_or_owed : forall n es s, srun (s_init n) es = Some s ->
+  forall j cl x, nth_error (ss_lists s) j = Some cl -> In x (pl_arr (cl_pl cl)) ->
+    ps_score x = live_score s cl (ps_hp x) \/
+    exists t, In t (ss_thr s) /\ owes j (ps_hp x) t = true.
+Proof. exact score_fresh_or_owed. Qed.
+Print Assumptions C15_score_fresh_or_owed.
+
+(* FRESHNESS: whenever no operation is running, every list (the channel's and every isolated
+   sub-channel's, whatever strategy was set) holds for every member -- alias peers included --
+   exactly the score its calculator gives the member's live connections and pending calls *)
+Theorem C15_score_fresh : forall n es s, srun (s_init n) es = Some s -> quiescent s = true ->
+  forall cl x, In cl (ss_lists s) -> In x (pl_arr (cl_pl cl)) -> ps_score x = live_score s cl (ps_hp x).
+Proof. exact score_fresh_quiescent. Qed.
+Print Assumptions C15_score_fresh.
+
+(* hence Get at a quiescent moment returns a member of the strictest non-empty tier whose LIVE
+   score is minimal in that tier (connected before unconnected, fewer pending first by C15_tiers) *)
+Theorem C15_get_least_loaded_live : forall n es s, srun (s_init n) es = Some s -> quiescent s = true ->
+  forall cl prev d, In cl (ss_lists s) ->
+    match pl_get (cl_pl cl) prev d with
+    | Some (_, SelOk p, _) =>
+        least_loaded (eligible_get prev (pl_keys (cl_pl cl)))
+                     (map (fun x => (ps_hp x, live_score s cl (ps_hp x))) (pl_arr (cl_pl cl))) p
+    | Some (_, SelNoPeers, _) => pl_keys (cl_pl cl) = []
+    | _ => False
+    end.
+Proof. exact get_least_loaded_live. Qed.
+Print Assumptions C15_get_least_loaded_live.
+
+(* THE FAMILY.  Besides the operations of the model, ANY thread program may run ([GProg]), interleaved
+   with everything else, as long as it is covered ([good], a decidable syntactic condition): every
+   change of a peer's connections or pending calls is followed in the same thread by
+   Channel.updatePeer of that very peer (possibly behind a root-list lookup of the same host:port),
+   a connection is only added to the peers of its announced / dialled host:port, and a failed test
+   skips re-scorings of its own subject only.  Freshness at every quiescent moment, no panic. *)
+Theorem C15_score_covered_programs_fresh : forall n gs s, grun (s_init n) gs = Some s -> quiescent s = true ->
+  forall cl x, In cl (ss_lists s) -> In x (pl_arr (cl_pl cl)) -> ps_score x = live_score s cl (ps_hp x).
+Proof. exact covered_programs_fresh. Qed.
+Print Assumptions C15_score_covered_programs_fresh.
+
+Theorem C15_score_covered_programs_total : forall n gs, exists s, grun (s_init n) gs = Some s.
+Proof. exact covered_programs_total. Qed.
+Print Assumptions C15_score_covered_programs_total.
+
+(* the harness entry point run_c15score runs operations one after the other ([seq_run]); what it
+   prints for a quiescent state is therefore the specification: stored score = live score *)
+Theorem C15_score_sequential : forall n ops s, seq_run (s_init n) ops = Some s -> quiescent s = true ->
+  forall cl x, In cl (ss_lists s) -> In x (pl_arr (cl_pl cl)) -> ps_score x = live_score s cl (ps_hp x).
+Proof. exact seq_fresh. Qed.
+Print Assumptions C15_score_sequential.
+
+(* ---- ties to the source (Gen/GenC15Score.v) ------------------------------------------------
+   the thread programs of the model ARE the statement structure of the Go functions: every peer
+   that gains / loses the connection is passed to updatePeer, on the announced AND on the dialled
+   host:port; exchangeUpdated re-scores both *)
+Theorem C15_score_steps_generated : forall c ann dial,
+  compiled c15prog_addToPeer (env_of c false ann dial [] true) c15prog_close = Some (prog_close c ann dial) /\
+  (exists p1 p2,
+     compiled c15prog_addToPeer (env_of c false ann dial [] true) c15prog_active = Some p1 /\
+     compiled c15prog_addToPeer (env_of c false ann dial dial true) c15prog_connectTail = Some p2 /\
+     prog_connect c ann dial = p1 ++ p2) /\
+  compiled c15prog_addToPeer (env_of c true ann [] [] true) c15prog_active = Some (prog_accept c ann) /\
+  compiled c15prog_addToPeer (env_of c false ann dial [] true) c15prog_exch = Some (exch_updated ann dial) /\
+  c15prog_updatePeer = [CCall 7 4; CCall 8 4] /\ c15prog_subUpdate = [CLoop [CIf 7 0 [CCall 9 4] []]].
+Proof.
+  exact (fun c ann dial => conj (close_tie c ann dial) (conj (connect_tie c ann dial)
+          (conj (active_tie c true ann []) (conj (exch_tie c ann dial) update_peer_tie)))).
+Qed.
+Print Assumptions C15_score_steps_generated.
+
+(* the atomic steps ARE the lock regions of peer.go: in Add, onPeerChange, SetStrategy the score is
+   computed (GetScore, with the calculator read in the same region) and published (map store,
+   updatePeer) under ONE hold of the list's write lock *)
+Theorem C15_score_regions_generated :
+  (c15reg_listAdd = reg_add /\ c15reg_listExists = reg_exists /\
+   c15reg_onPeerChange = reg_on_peer_change /\ c15reg_getPeerScore = reg_get_peer_score /\
+   c15reg_setStrategy = reg_set_strategy /\ c15reg_listUpdatePeer = reg_list_update_peer /\
+   c15reg_listRemove = reg_remove) /\
+  forallb region_safe [c15reg_listAdd; c15reg_listExists; c15reg_onPeerChange; c15reg_setStrategy; c15reg_listRemove] = true.
+Proof. exact (conj regions_tie regions_safe). Qed.
+Print Assumptions C15_score_regions_generated.
+
+(* the data path inside those regions (statement targets of the classic translator): updatePeer
+   always leaves the new score; Add stores GetScore of the peer the root list returned, under the
+   host:port, computed in the locked region; onPeerChange's locked region re-scores the entry iff it
+   (still) exists, with GetScore of the entry's own peer *)
+Theorem C15_score_datapath_generated : forall scores get_score hp p old new,
+  c15listUpdateScore old new = new /\
+  c15listAddScores scores get_score hp p = (gmap_set scores hp (get_score p), p) /\
+  c15listRescore scores get_score hp =
+    (if snd (gmap_get scores hp) then gmap_set scores hp (get_score hp) else scores).
+Proof.
+  exact (fun scores get_score hp p old new =>
+           conj (update_score_tie old new) (conj (add_scores_tie scores get_score hp p) (rescore_tie scores get_score hp))).
+Qed.
+Print Assumptions C15_score_datapath_generated.
+
+(* no other function of the package changes a peer's connection lists, computes or stores a score *)
+Theorem C15_score_census_generated : c15_census = census_expected.
+Proof. exact census_tie. Qed.
+Print Assumptions C15_score_census_generated.
+
+(* ---- the obligations are needed (and the pinned tree broke two of them) ------------------------
+   alias peer "a" (a forwarder in front of "r") in the channel's list, connected through the alias:
+   closing with "drop from every peer, re-score once" leaves the alias peer ranked as connected
+   (2^31-1 instead of 2^64-1) at a quiescent moment; the program is not covered *)
+Example C15_example_uncovered_close_stale :
+  match seq_run (s_init 0) alias_setup with
+  | Some s0 =>
+      stale_entries s0 = [] /\ good (ck_of s0) close_rescore_once = false /\
+      match run_prog s0 close_rescore_once with
+      | Some s1 => quiescent s1 = true /\ stale_entries s1 = [(0%nat, hp_a, 2 ^ 31 - 1, 2 ^ 64 - 1)]
+      | None => False
+      end
+  | None => False
+  end.
+Proof. exact uncovered_close_goes_stale. Qed.
+
+(* exchangeUpdated as the pinned tree had it (re-score the announced peer only): a call in flight
+   over the alias connection leaves the alias peer with the score of an idle connection
+   (finding c15:alias-pending-stale, fixed) *)
+Example C15_example_uncovered_exch_stale :
+  match seq_run (s_init 0) alias_setup with
+  | Some s0 =>
+      good (ck_of s0) exch_announced_only = false /\
+      match run_prog s0 exch_announced_only with
+      | Some s1 => quiescent s1 = true /\ stale_entries s1 = [(0%nat, hp_a, 2 ^ 31 - 1, 2 ^ 31)]
+      | None => False
+      end
+  | None => False
+  end.
+Proof. exact uncovered_exch_goes_stale. Qed.
+
+(* the same history with the model's (= the code's) programs: calls start and finish, the connection
+   closes, both peers end as unconnected; the hypotheses of C15_score_fresh are satisfiable *)
+Example C15_example_alias_fresh :
+  match seq_run (s_init 0) (alias_setup ++ [OExch 1 1; OExch 1 1; OExch 1 (-1); OClose 1]) with
+  | Some s =>
+      quiescent s = true /\ stale_entries s = [] /\
+      map (fun x => (ps_hp x, ps_score x)) (flat_map (fun cl => pl_arr (cl_pl cl)) (ss_lists s)) =
+        [(hp_r, 2 ^ 64 - 1); (hp_a, 2 ^ 64 - 1)]
+  | None => False
+  end.
+Proof. exact covered_close_stays_fresh. Qed.
+
+(* lock-region tables that are NOT safe: PeerList.Add scoring the peer before it takes the write
+   lock, and onPeerChange as the pinned tree had it (GetScore between the read-locked lookup and
+   the write-locked update: finding c15:onpeerchange-lost-update, fixed) *)
+Example C15_example_unsafe_regions :
+  region_safe [(0, 30); (0, 7); (0, 29); (1, 27); (0, 20); (2, 21); (2, 7); (2, 36); (2, 38); (2, 22); (2, 25); (2, 38); (2, 7)] = false /\
+  region_safe [(1, 31); (1, 27); (0, 7); (0, 20); (0, 38); (0, 7); (2, 24); (2, 38)] = false.
+Proof. vm_compute. split; reflexivity. Qed.
